@@ -133,6 +133,7 @@ class Interp:
         self.inline_only = set()           # qualnames forced inline (the function under verification)
         self.depth = 0
         self.mut = []                      # fold-aware mutable model objects (streams, lists, arrays)
+        self.writes = []                   # log of heap writes: (object, what)
         from .stream import Sums
         ctx.sums = Sums(ctx)
         self.call_log = []
@@ -346,7 +347,7 @@ class Interp:
         r = npmodel.getattr_hook(self, obj, name)
         if r is not npmodel.NOATTR:
             return r
-        if isinstance(obj, (str, bytes, int, float, tuple)) or obj is None or is_int(obj) or isinstance(obj, (VStr, VFloat)):
+        if isinstance(obj, (str, bytes, int, float, tuple)) or obj is None or is_int(obj) or isinstance(obj, (VStr, VFloat)) or hasattr(obj, "py_type"):
             self.raise_("AttributeError", f"'{type(obj).__name__}' object has no attribute '{name}'")
         raise OutOfReach(f"attribute {name} of {type(obj).__name__}")
 
@@ -371,6 +372,7 @@ class Interp:
                 self.call(cattr.fset, [obj, value], {})
                 return
             obj.fields[name] = value
+            self.writes.append((obj, name))
             return
         if npmodel.setattr_hook(self, obj, name, value):
             return
@@ -427,10 +429,18 @@ class Interp:
         t = npmodel.type_hook(self, v)
         if t is not None:
             return t
+        pt = getattr(v, "py_type", None)
+        if pt is not None:
+            return {"tuple": T_TUPLE, "list": T_LIST}[pt]
         return None
 
     def isinstance(self, v, cls):
         from . import npmodel
+        dyn = getattr(v, "dyn_isinstance", None)
+        if dyn is not None and not isinstance(cls, tuple):
+            r = dyn(cls)
+            if r is not None:
+                return r
         if isinstance(cls, tuple):
             r = False
             for c in cls:
@@ -713,6 +723,19 @@ class Interp:
         return self.eval(e.body, env) if self.truth(self.eval(e.test, env), f"ifexp@{e.lineno}") else self.eval(e.orelse, env)
 
     def e_BoolOp(self, e, env):
+        if getattr(self.ctx, "pure", 0):
+            # inside a quantified (generator) expression: no forking; operands are side-effect free boolean tests
+            terms = []
+            for x in e.values:
+                v = self.eval(x, env)
+                t = self.truth_term(v)
+                c = t if isinstance(t, bool) else conc(t)
+                if isinstance(e.op, ast.And) and c is False:
+                    return False
+                if isinstance(e.op, ast.Or) and c is True:
+                    return True
+                terms.append(t)
+            return And(*terms) if isinstance(e.op, ast.And) else Or(*terms)
         if isinstance(e.op, ast.And):
             v = True
             for x in e.values:
@@ -898,7 +921,8 @@ class Interp:
             for x, y in zip(a.items, b.items):
                 out = And(out, True if x is y else self.truth_term(self.equals(x, y)))
             return out
-        raise OutOfReach("== on symbolic lists")
+        from .loops import sym_list_eq
+        return sym_list_eq(interp=self, a=a, b=b)
 
     def contains(self, container, x):
         from . import npmodel
